@@ -197,7 +197,7 @@ func expandC14(t *testing.T, seed uint64, tier string) []*core.Plan {
 	for i := 0; i < n; i++ {
 		switch {
 		case class == 2 && i == n/2:
-			p.Items = append(p.Items, core.Item{K: r.PickS("bclose", "bclose", "eclose")})
+			p.Items = append(p.Items, core.Item{K: r.PickS("bclose", "bclose", "eclose"), A: r.Intn(2)})
 		case r.Chance(2, 5):
 			p.Items = append(p.Items, wpub())
 		case r.Chance(1, 6):
@@ -419,6 +419,15 @@ func runC14(t *testing.T, p *core.Plan) *core.Result {
 				go w.Backend.Close(2 * time.Second)
 			case "eclose":
 				shutdown = true
+				if it.A == 1 {
+					// a connection arrives at the very moment of the shutdown
+					pr := w.NewPeer("late")
+					hostiles = append(hostiles, pr)
+					c := packet.NewConnect()
+					c.ClientID, c.CleanSession = "late", true
+					pr.Send(c)
+					res.Count("connects_racing_engine_close", 1)
+				}
 				_ = w.Server.Close()
 				go w.Engine.Close()
 			}
